@@ -36,7 +36,7 @@ Seps == {":", ";", "=", "~", "!", "\"", "\\"}        \* every separator / quotin
 SigmaFull == Seps \cup {"a", "b"}
 SigmaQuick == {":", "=", "~", "\"", "a"}
 ConvSigmaFull == SigmaFull \cup {"1"}
-ConvSigmaQuick == SigmaQuick \cup {"1"}
+ConvSigmaQuick == {":", "=", "~", "a", "1"}
 ListSigma4 == {"\"", ";", "=", "a"}
 ListSigma5 == ListSigma4 \cup {"\\"}
 CompsBoth == {<<>>, <<"dss">>}
